@@ -11,7 +11,10 @@ SCAN    find_data / test_data / DataKey::data answer from the scan source narrow
         to the item's own value
 TEST    DataValue::test obeys the laws of its operator algebra on a finite grid: Any, Not, And/Or,
         trichotomy and arithmetic meaning of the three ordered families, equality with
-        DataOperator::from(&value), numeric/string and numeric/numeric cross-type comparison"""
+        DataOperator::from(&value), numeric/string and numeric/numeric cross-type comparison
+PARSE   the operator the query language builds for `= v`, `!= v`, `< v` ... (parse_dataoperator) denotes, under the
+        extracted DataValue::test, what the notation says: != is the complement of =, a list is the disjunction of its
+        alternatives, the four inequalities have their arithmetic meaning"""
 import itertools
 import re
 from synq import Syn, walk, find, unparse, strip, pat_names, block_tail
@@ -42,6 +45,7 @@ def run(ctx):
     byvalue_rule(ctx, syn)
     safety_rule(ctx, syn)
     scan_rule(ctx, syn)
+    parse_rule(ctx, syn)
 
 
 # ====================================================================== TEST
@@ -651,3 +655,138 @@ def classify_scan(e, opname, file):
             return "bad", "the all-datasets scan is narrowed"
         return "scan", ""
     return "bad", "`%s` is not one of the scan sources (key.data(), self.data(), the all-datasets scan)" % full[:60]
+
+
+# ====================================================================== PARSE
+def parse_rule(ctx, syn):
+    """parse_dataoperator evaluated from its syntax tree for every (operator token, argument type) it accepts, on a grid
+    of argument texts; the resulting operator is judged only through DataValue::test (also extracted), so any equivalent
+    way of building it is accepted"""
+    r = ctx.rule("C10.PARSE", "the DataOperator built by the query language for `OP value` denotes the stated comparison: != is the complement of =, a|b is the disjunction of its alternatives, < <= > >= have their arithmetic meaning (judged through the extracted DataValue::test)")
+    pf = [f for f in syn.fns if f.name == "parse_dataoperator" and f.file == "src/api/query.rs"]
+    tf = [f for f in syn.fns if f.name == "test" and f.file == "src/datavalue.rs"]
+    if len(pf) != 1 or len(tf) != 1:
+        ctx.anchor_missing(r, "fn parse_dataoperator / DataValue::test")
+        return
+    pf, tf = pf[0], tf[0]
+    ctx.functions_analysed.add(pf.qual)
+    hooks = base_hooks()
+    hooks["call:Cow::Borrowed"] = lambda ev, recv, args, node, env: args[0]
+    hooks["call:Box::new"] = lambda ev, recv, args, node, env: args[0]
+    hooks["split"] = lambda ev, recv, args, node, env: recv.split(args[0]) if isinstance(recv, str) and isinstance(args[0], str) and args[0] else NotImplemented
+
+    def h_map(ev, recv, args, node, env):
+        if isinstance(recv, list) and args and isinstance(args[0], tuple) and args[0][0] == "closure":
+            return [closure_call(ev, args[0], [x], env) for x in recv]
+        return NotImplemented
+    hooks["map"] = h_map
+    hooks["collect"] = lambda ev, recv, args, node, env: recv if isinstance(recv, list) else NotImplemented
+    hooks["expect"] = lambda ev, recv, args, node, env: recv[1] if isinstance(recv, tuple) and recv and recv[0] == "ok" else NotImplemented
+    hooks["macro:format"] = lambda ev, node, env: "<message>"
+
+    def num(kind):
+        def f(ev, recv, args, node, env):
+            v = args[0]
+            try:
+                if kind == "int":
+                    if not re.fullmatch(r"[+-]?\d+", v):
+                        raise ValueError
+                    return ok(int(v))
+                if not re.fullmatch(r"[+-]?(\d+(\.\d*)?|\.\d+)([eE][+-]?\d+)?", v):
+                    raise ValueError
+                return ok(float(v))
+            except ValueError:
+                return err("syntax")
+        return f
+    # reviewed models of the two one-line helpers (value.parse() with the type taken from the signature)
+    hooks["call:parse_int_arg"] = num("int")
+    hooks["call:parse_float_arg"] = num("float")
+    cache = {}
+
+    def test(v, op):
+        k = (repr(v), repr(op))
+        if k not in cache:
+            res = Evaluator(hooks=hooks).run_body(tf.body, {"self": v, "operator": op})
+            if not isinstance(res, bool):
+                raise Unknown("test returned %r" % (res,))
+            cache[k] = res
+        return cache[k]
+    hooks["test"] = lambda ev, recv, args, node, env: test(recv, args[0]) if isinstance(recv, EnumVal) else NotImplemented
+
+    def parse(opstr, value, ty):
+        res = Evaluator(hooks=hooks).run_body(pf.body, {"opstr": opstr, "value": value, "valuetype": E(ty)})
+        if isinstance(res, tuple) and res and res[0] == "ok" and isinstance(res[1], EnumVal):
+            return res[1]
+        if isinstance(res, tuple) and res and res[0] == "err":
+            return None
+        raise Unknown("parse_dataoperator returned %r" % (res,))
+    values = [E("Null"), E("Bool", [True]), E("Bool", [False])] + [E("Int", [n]) for n in (-1, 0, 1, 2, 3)] + [E("Float", [f]) for f in (1.0, 2.5, 3.0)] + \
+        [E("String", [x]) for x in ("", "1", "3", "2.5", "abc", "abd", "true")] + [E("Datetime", [d]) for d in (10, 20, 30)]
+    args = {"String": ["abc", "1", ""], "Integer": ["1", "3", "-1"], "Float": ["2.5", "1.0"], "Null": ["null"], "Any": ["any"], "Bool": ["true", "false"],
+            "List": ["abc|abd", "1|abc|3", "abc|abc"], "UnquotedList": ["1|3", "1|2.5|abc", "2|2"], "Datetime": ["T10", "T20"]}
+    ORD = {">": lambda a, b: a > b, ">=": lambda a, b: a >= b, "<": lambda a, b: a < b, "<=": lambda a, b: a <= b}
+    n = 0
+    reported = set()
+
+    def bad(key, msg, sample=None):
+        if key not in reported:
+            reported.add(key)
+            ctx.report(r, key, msg, pf.file, pf.line, sample)
+    try:
+        for ty, vs in sorted(args.items()):
+            for v in vs:
+                eq = parse("=", v, ty)
+                ne = parse("!=", v, ty)
+                if eq is not None and ne is not None:
+                    for d in values:
+                        n += 1
+                        if test(d, ne) != (not test(d, eq)):
+                            bad("complement:" + ty, "`!= %s` (%s) builds %r, which is not the complement of `= %s` = %r: on the value %r both answer %s" % (v, ty, ne, v, eq, d, test(d, eq)), {"value": repr(d), "arg": v, "type": ty})
+                    r.hit("complement:%s:%s" % (ty, v), sample={"law": "test(d, parse('!=', v)) == !test(d, parse('=', v))", "type": ty, "arg": v, "eq": repr(eq), "ne": repr(ne)})
+                if eq is not None and ty in ("List", "UnquotedList"):
+                    parts = v.split("|")
+
+                    def part_ty(x):
+                        if ty == "List":
+                            return "String"
+                        if re.fullmatch(r"[+-]?\d+", x):
+                            return "Integer"
+                        if re.fullmatch(r"[+-]?(\d+(\.\d*)?|\.\d+)", x):
+                            return "Float"
+                        return "String"
+                    alts = [parse("=", x, part_ty(x)) for x in parts]
+                    if any(a is None for a in alts):
+                        raise Unknown("alternative of %r not accepted on its own" % v)
+                    for d in values:
+                        n += 1
+                        if test(d, eq) != any(test(d, a) for a in alts):
+                            bad("disjunction:" + ty, "`= %s` (%s) builds %r, which is not the disjunction of its alternatives %r: differs on the value %r" % (v, ty, eq, alts, d), {"value": repr(d), "arg": v})
+                    r.hit("disjunction:%s:%s" % (ty, v))
+                if ty in ("Integer", "Float", "Datetime"):
+                    ref = int(v) if ty == "Integer" else float(v) if ty == "Float" else int(v[1:])
+                    fam = {"Integer": ("Int", "Float"), "Float": ("Int", "Float"), "Datetime": ("Datetime",)}[ty]
+                    for tok, fn_ in sorted(ORD.items()):
+                        op = parse(tok, v, ty)
+                        if op is None:
+                            bad("rejected:%s:%s" % (tok, ty), "`%s %s` (%s) is rejected by parse_dataoperator" % (tok, v, ty))
+                            continue
+                        for d in values:
+                            n += 1
+                            want = d.name in fam and fn_(d.args[0], ref)
+                            if test(d, op) != want:
+                                bad("order:%s:%s" % (tok, ty), "`%s %s` (%s) builds %r: on the value %r it answers %s, the notation says %s" % (tok, v, ty, op, d, test(d, op), want), {"value": repr(d), "arg": v, "token": tok})
+                        r.hit("order:%s:%s:%s" % (tok, ty, v))
+                    if eq is not None:
+                        for d in values:
+                            n += 1
+                            if d.name in fam and test(d, eq) != (d.args[0] == ref):
+                                bad("equal:" + ty, "`= %s` (%s) builds %r: on the value %r it answers %s" % (v, ty, eq, d, test(d, eq)))
+                if ty == "String" and eq is not None:
+                    for d in values:
+                        n += 1
+                        if d.name == "String" and test(d, eq) != (d.args[0] == v):
+                            bad("equal:String", "`= \"%s\"` builds %r: on the value %r it answers %s" % (v, eq, d, test(d, eq)))
+    except (Unknown, Panic) as e:
+        ctx.report(r, "unevaluated", "parse_dataoperator could not be evaluated (%s): the meaning of the operators of the query language is not established" % e, pf.file, pf.line)
+    r.obligations = r.discharged = n
+    ctx.floor(r, n, 1300, "operator denotations compared")
